@@ -442,6 +442,34 @@ def run(ctx):
     # ---- falsy-zero fall-through: alpha = 1 and singleton clones make the start value exactly 0.0
     # (covered above: alpha = 1 is in the grid; clones of size 1 or 2 give log (n-1)! = 0)
 
+    # ---- large clones: the CRP term log (size-1)! and the counts behind the topology / multiplicity terms for clones of
+    # hundreds of data points (any table, cache or approximation of the factorials that is only right for small arguments
+    # shows here); exact Fraction oracle only (the Coq model's unary factorial cannot be evaluated at these sizes)
+    big_sizes = [127, 128, 129, 130, 257] if ctx.quick else [100, 127, 128, 129, 130, 200, 255, 256, 257, 300, 513]
+    nbig = max(big_sizes) + 6
+    bvals = rational_values(rng, nbig, 1, 3)
+    bsz = [1] * nbig
+    for p in (Fraction(0), Fraction(1, 10)):
+        bdata = mk_data(bvals, p, bsz)
+        for size in big_sizes:
+            bigc = (tuple(range(size)), (((size, size + 1), ()), ((size + 2,), ())))
+            spec = canon(((bigc, ((size + 3,), ())), (size + 4,)))
+            t = build_children_first(spec, bdata, (1, 3))
+            for alpha in (Fraction(3, 10), Fraction(5, 2)):
+                ex = exact_values(spec, bvals, alpha, p, bsz)
+                want = [flog(x) for x in ex]
+                prior = FSCRPDistribution(float(alpha))
+                dist = TreeJointDistribution(prior)
+                b = dist.compute_both_log_p_and_log_p_one(t)
+                got = {"log_p": float(dist.log_p(t)), "log_p_one": float(dist.log_p_one(t)), "prior.log_p": float(prior.log_p(t)), "prior.log_p_one": float(prior.log_p_one(t)), "both[0]": float(b[0]), "both[1]": float(b[1])}
+                exp_ = {"log_p": want[2], "log_p_one": want[3], "prior.log_p": want[0], "prior.log_p_one": want[1], "both[0]": want[2], "both[1]": want[3]}
+                ctx.case(key=("large-clone", size, str(alpha), pname(p)), nontrivial=True)
+                ctx.count("large_clone_cases")
+                for k in got:
+                    if not close(got[k], exp_[k]):
+                        ctx.fail("C03:%s:spec:large-clone" % k, "%s = %.12g but the FS-CRP statement gives %.12g for a tree whose largest clone holds %d data points" % (k, got[k], exp_[k], size),
+                                 {"largest_clone": size, "alpha": str(alpha), "outlier_prob": pname(p), "got": got, "expected": exp_})
+
     # ---- DataPoint attributes (outlier marginal, outlier prior) against the model
     for p in ps:
         for i, d in enumerate(datas[p]):
